@@ -77,6 +77,43 @@ def _perm_case(kinds, edges, fixed, vperm, eperm):
     return fn
 
 
+def _relabel_optimize(kinds, edges):
+    """the same graph with other (arbitrary, distinct) vertex ids, same list order: optimize(fix_first_pose=True) holds the
+    same physical vertex (the FIRST LISTED one, whatever its id) and moves every vertex to the same pose (the two linear
+    systems are the same terms, the solver stub is a deterministic function of them)"""
+
+    def fn(P, g):
+        from .graphkit import functional_solver
+
+        np = P.np
+        env = install_stubs(P, g, solver=functional_solver(P) if P.symbolic else None)
+        g1, verts1, eobjs1, ids1 = structure_graph(P, g, kinds, edges, set())
+        FreeEdge = make_free_edge_class(g)
+        nv = len(kinds)
+        new_ids = [P.int("nid%d" % i) for i in range(nv)]
+        P.distinct(new_ids)
+        verts2 = [g.Vertex(new_ids[i], verts1[i].pose.copy()) for i in range(nv)]
+        if P.symbolic:
+            from symrun.scalars import SymInt
+
+            mk = lambda x: SymInt(x.v)  # noqa
+        else:
+            mk = lambda x: x  # noqa
+        eobjs2 = [FreeEdge([mk(new_ids[vi]) for vi in edges[k]], e.information, e._err, e._jacs) for k, e in enumerate(eobjs1)]
+        g2 = g.Graph(eobjs2, verts2)
+        import warnings
+
+        with warnings.catch_warnings():
+            warnings.simplefilter("ignore")
+            g1.optimize(tol=0.0, max_iter=1, fix_first_pose=True, verbose=False)
+            g2.optimize(tol=0.0, max_iter=1, fix_first_pose=True, verbose=False)
+        for i in range(nv):
+            P.check("same_fixed_flag_%d" % i, verts1[i].fixed == verts2[i].fixed and verts1[i].fixed == (i == 0))
+            P.check_eq("same_optimized_pose_%d" % i, verts2[i].pose.to_array(), verts1[i].pose.to_array(), tol=1e-6)
+
+    return fn
+
+
 def _real_chi2_perm(P, g):
     """chi^2 of a graph of real edges is independent of list orders and ids"""
     from .common import mk_landmark, mk_odometry
@@ -231,6 +268,8 @@ def cases(tier):
         for vp in vperms:
             for ep in eperms:
                 out.append(Case("perm%d-v%s-e%s" % (si, "".join(map(str, vp)), "".join(map(str, ep))), _perm_case(kinds, edges, fixed, vp, ep), timeout=10, validate=1, feas_timeout_ms=1000))
+    for si, (kinds, edges, fixed) in enumerate(PERM_STRUCTS[:2]):
+        out.append(Case("relabel-optimize%d" % si, _relabel_optimize(kinds, edges), timeout=10, validate=1, feas_timeout_ms=1000, val_tol=1e-4))
     out.append(Case("perm-real-chi2", _real_chi2_perm, timeout=20, validate=1, cert_first=True))
     out.append(Case("twopi", _two_pi, timeout=20, validate=3))
     for signs in itertools.product((1.0, -1.0), repeat=3):
